@@ -124,7 +124,9 @@ def run(ck: Check) -> int:
         # prefixes written with `/` and with escaped backslashes (added after seeded change C18g: is_magic's membership loops
         # became set.isdisjoint, which iterates a bytes drive as ints and never finds the bytes member b'\\' of the drive set)
         wpats = ['c:\\\\file', 'c:/file', '\\\\\\\\server\\\\share\\\\x', '//server/share/x', '\\\\\\\\?\\\\c:\\\\x', '//?/c:/x', 'c:\\\\*', 'c:/[a]',
-                 'a\\\\b', 'a/b', 'plain', 'a*', '~x', '{a,b}', 'a|b', '!a', '-a', '@(a)', '//?/UNC/h/s/x', '\\\\\\\\?\\\\UNC\\\\h\\\\s', 'c:', 'c:x', '\\\\', '/']
+                 'a\\\\b', 'a/b', 'plain', 'a*', '~x', '{a,b}', 'a|b', '!a', '-a', '@(a)', '//?/UNC/h/s/x', '\\\\\\\\?\\\\UNC\\\\h\\\\s', 'c:', 'c:x', '\\\\', '/',
+                 # KF-D38: `\\N{…}` is one token of the str normaliser even without RAWCHARS, so a `\\/` inside it is not rewritten (bytes: it is)
+                 '\\N{\\/}', 'x\\N{a\\/b}y', '\\N{a}', '\\N{']
         wnames = ['c:\\file', 'c:/file', 'C:/FILE', '//server/share/x', '\\\\server\\share\\x', 'a\\b', 'a/b', 'plain', 'ab', 'a']
         for wp in wpats:
             for sub in range(16):
@@ -149,8 +151,9 @@ def run(ck: Check) -> int:
                                 except Exception as ex:  # noqa: BLE001
                                     rb = type(ex).__name__
                                 if rs != rb:
+                                    kid = 'KF-D38' if ('\\N{' in wp and '\\/' in wp and what in ('translate', 'match')) else None
                                     ck.report(Failing(f'{what}(bytes) differs from {what}(str) under Windows rules', {'api': f'{mod.__name__}.{what}', 'pattern': wp, 'flags': fl},
-                                                      repr(rs)[:200], repr(rb)[:200]), None)
+                                                      repr(rs)[:200], repr(rb)[:200]), kid)
                     except common.CallTimeout:
                         continue
             if e(G.escape(wp, unix=False)) != G.escape(e(wp), unix=False):
